@@ -87,6 +87,10 @@ mod msgq {
             self.capacity.saturating_sub(self.len_bytes)
         }
 
+        pub fn capacity(&self) -> usize {
+            self.capacity
+        }
+
         #[cfg(librqbit_utp_verif)]
         pub fn verif_len_bytes(&self) -> usize {
             self.len_bytes
@@ -465,6 +469,13 @@ impl UserRx {
     #[cfg(librqbit_utp_verif)]
     pub fn verif_queue_bytes(&self) -> usize {
         self.shared.locked.lock().queue.verif_len_bytes()
+    }
+
+    /// In-order messages are waiting for room in the reader's queue, and the next one can fit
+    /// once the reader has drained it (a message larger than the whole queue never will).
+    pub fn has_unflushed_in_order(&self) -> bool {
+        self.ooq.filled_front > 0
+            && self.ooq.data[0].len_bytes() <= self.shared.locked.lock().queue.capacity()
     }
 
     /// Is assembler empty
